@@ -3,6 +3,9 @@
 package zzverif
 
 import (
+	"bytes"
+	"compress/gzip"
+	"io"
 	"encoding/json"
 	"fmt"
 	"math"
@@ -294,4 +297,23 @@ func cellCount(b []byte, headerBytes int) int {
 		n++
 	}
 	return n
+}
+
+// GzipStream (native flavour): the buffer's bytes inside a real gzip container made of stored blocks. A truncated
+// buffer (Limit >= 0) becomes a container that ends after exactly Limit bytes of content, without final block or
+// trailer - what a download interrupted at that point leaves behind.
+func GzipStream(b *Buf) io.Reader {
+	var out bytes.Buffer
+	w, _ := gzip.NewWriterLevel(&out, gzip.NoCompression)
+	w.Write(b.B)
+	w.Close()
+	if b.Limit < 0 || b.Limit >= len(b.B) {
+		return bytes.NewReader(out.Bytes())
+	}
+	const gzipHeader, storedHeader = 10, 5
+	n := gzipHeader + storedHeader + b.Limit
+	if len(b.B) > 65535 || n > out.Len() {
+		panic("zzverif.GzipStream: buffer too large for a single stored block")
+	}
+	return bytes.NewReader(out.Bytes()[:n])
 }
